@@ -132,6 +132,5 @@ fn c17_flow_poison() {
     assert!(unsafe { BLOCKED_N } == blocked_before && unsafe { WAKE_N } == wakes_before, "no DATA_BLOCKED, no transport wake-up after the error");
     kani::cover!(outstanding && quota > 0 && sent_data < max_data, "credit outstanding while the connection fails");
     kani::cover!(!outstanding, "idle controller");
-    drop(fc);
     core::mem::forget(tx);
 }
